@@ -56,8 +56,8 @@ fn main() {
                 sum.nontrivial(&format!("{}|{}", coq_db(&dbdef), sql_text));
             }
             let mut classes: Vec<&str> = Vec::new();
-            if has_selfjoin_3way_order_by(&q) {
-                classes.push("selfjoin-3way-order-by");
+            if has_selfjoin_3way(&q) {
+                classes.push("selfjoin-3way");
             }
             let case = json!({"classes": classes, "sql": sql_text, "create": create_sql(&dbdef), "tables": dbdef.tables.iter().map(|t| format!("{:?}", t.rows)).collect::<Vec<_>>(), "observed": obs_text(&o), "features": feats});
             match &o {
